@@ -41,7 +41,10 @@ RULE_ADDED = (
               ' '
               'Round 15: brother lists with a repeated entry; headers around and beyond 64 KiB '
               '(65535 goes through; beyond it no success and no metadata message for that heade'
-              'r). ')
+              'r). '
+              ' '
+              "Round 17: compressed coinbases whose midstate reads like something (SHA-256's in"
+              'itial state, zeros, ones) under a non-zero count. ')
 RULE = RULE + " " + RULE_ADDED.strip()
 ASSUMPTIONS = [
     "simulated device + fake transports trusted; the device follows framing only",
@@ -415,8 +418,8 @@ def run_shard(spec, acc):
     holder = {}
     for i in range(spec["n"]):
         run_case(acc, rng.getrandbits(48), spec, holder)
-        if i % 24 == 5:
-            # (quick: one a shard, up to 1 MiB; thorough: 20 a shard, up to 16 MiB)
+        if i % (24 if spec["n"] <= 100 else 100) == 5:
+            # (quick: one a shard, up to 1 MiB; thorough: five a shard, up to 16 MiB)
             oversize_case(acc, rng.getrandbits(48), huge=spec["n"] > 100)
     for k, v in holder.items():
         if k != "pool":
